@@ -682,6 +682,22 @@ pub fn e2_spec(id: &str, tier: &str) -> Option<crate::e2::E2Spec> {
             ));
             Some(E2Spec { id: "C24", scens, cap_s: cap, rule: RULE_E2, assumptions: e2_assumptions() })
         }
+        "C19" => {
+            // every schedule of the harnesses of the other schedule properties, with the protocol
+            // monitors evaluated on the H2 trace of each
+            let mut scens = Vec::new();
+            for id in ["C18", "C14", "C20", "C21", "C16"] {
+                if let Some(s) = e2_spec(id, tier) {
+                    let mut v = s.scens;
+                    if quick {
+                        // the quick tier keeps the harnesses in which threads block on each other most
+                        v.retain(|x| x.threads.len() >= 2 && (id != "C16" || x.name.contains("p3-1-0-1") || x.name.contains("p3-4-6-6")));
+                    }
+                    scens.extend(v);
+                }
+            }
+            Some(E2Spec { id: "C19", scens, cap_s: cap, rule: RULE_E2, assumptions: e2_assumptions() })
+        }
         "C18" => {
             let mut scens = Vec::new();
             for kind in [Kind::Fx, Kind::Fxj, Kind::Fb] {
